@@ -12,6 +12,9 @@ for f in sorted(os.listdir(os.path.join(HERE, 'harness', 'props'))):
         claimed[m.group(1)] = importlib.import_module(f'harness.props.{m.group(1)}').SPEC
 
 all_ids = [json.loads(l)['id'] for l in open(os.path.join(HERE, 'properties.jsonl'))]
+# only properties whose machinery has been integrated and run end to end are claimed
+ready = set(open(os.path.join(HERE, 'harness', 'ready.txt')).read().split())
+claimed = {k: v for k, v in claimed.items() if k in ready}
 checks = []
 for pid in all_ids:
     if pid not in claimed:
